@@ -157,17 +157,17 @@ func (w *bitWriter) bytes() []byte {
 }
 
 type msmSpec struct {
-	seven                            bool
-	typ, station, ts                 uint64
-	multiple                         bool
-	iods, stt, clk, ext              uint64
-	smooth                           bool
-	interval                         uint64
-	sats, sigs                       []uint // ids, ascending
-	cells                            [][]bool
-	satVals                          [][]int64 // per satellite, in column order
-	sigVals                          [][]int64 // per cell (row-major over the set cells), in column order
-	pad                              int
+	seven               bool
+	typ, station, ts    uint64
+	multiple            bool
+	iods, stt, clk, ext uint64
+	smooth              bool
+	interval            uint64
+	sats, sigs          []uint // ids, ascending
+	cells               [][]bool
+	satVals             [][]int64 // per satellite, in column order
+	sigVals             [][]int64 // per cell (row-major over the set cells), in column order
+	pad                 int
 }
 
 var satW4, satW7 = []int{8, 10}, []int{8, 4, 10, 14}
@@ -472,6 +472,32 @@ func randSpec(r *rand.Rand, seven bool, shape string) *msmSpec {
 	return s
 }
 
+// reshape: another well-formed message with the same header values and the SAME cell-mask bits,
+// regrouped into nsat x nsig (nsat*nsig must equal the old product); satellite values are drawn
+// afresh, the signal values are kept.
+func (s *msmSpec) reshape(r *rand.Rand, nsat, nsig int) *msmSpec {
+	var flat []bool
+	for _, row := range s.cells {
+		flat = append(flat, row...)
+	}
+	t := *s
+	t.sats, t.sigs = pickIDs(r, 64, nsat), pickIDs(r, 32, nsig)
+	t.cells = nil
+	for i := 0; i < nsat; i++ {
+		t.cells = append(t.cells, append([]bool{}, flat[i*nsig:(i+1)*nsig]...))
+	}
+	sw, ss, _, _ := s.widths()
+	t.satVals = nil
+	for i := 0; i < nsat; i++ {
+		var vs []int64
+		for col := range sw {
+			vs = append(vs, fieldVal(r, ss[col], sw[col], r.Intn(8)))
+		}
+		t.satVals = append(t.satVals, vs)
+	}
+	return &t
+}
+
 func (s *msmSpec) op(extra string) string {
 	name := "msm4"
 	if s.seven {
@@ -661,6 +687,8 @@ func init() {
 			"0..N trailing zero bytes up to the 1023-byte limit, plus a padding sweep 0..30 of the same message, plus random CRC-valid MSM-typed payloads (model/impl agreement " +
 			"on ill-formed input); non-trivial = well-formed message with at least one satellite; distinct = distinct op line",
 		Gen: genC04, Oracle: oracleC04,
-		NonTrivial: func(op string, o *Obs) bool { return strings.Contains(op, " exp=") && strings.Contains(o.Line, " sat=") },
+		NonTrivial: func(op string, o *Obs) bool {
+			return strings.Contains(op, " exp=") && strings.Contains(o.Line, " sat=")
+		},
 	}
 }
